@@ -45,6 +45,9 @@ def slices(tier):
               levels=[MATH | {"mul", "atan2"}, {"grad", "dx"}, FIN | {"div", "grad", "dx"}, FIN], mikinds=("fixed",), **dict(kw, chain="strict")),
         Slice("math2", [("z", ()), ("o", ())], MATH | {"mul", "grad"}, 4, idx=(10,), jets=J2, fixed={"z": 0, "o": 1},
               levels=[MATH | {"mul"}, {"exp", "ln", "sin", "cos", "mul"}, {"grad"}, FIN], mikinds=("fixed",), **dict(kw, chain="strict")),
+        # powers whose EXPONENT varies in space: b = 2 and n = 3 at the point (2 ** n = exp(n ln 2), ln 2 an exact atom)
+        Slice("pow-var", [("b", ()), ("n", ()), F], {"pow", "mul", "add", "grad", "dx"}, 4, idx=(10,), jets=J2, fixed={"b": 2, "n": 3},
+              levels=[{"pow", "mul", "add"}, {"pow", "mul"}, {"grad", "dx"}, FIN], mikinds=("fixed",), **dict(kw, chain="strict")),
         Slice("d3", [F3, P3], {"grad", "div", "curl", "nabla_grad", "dx"}, 2, idx=(10,), maxdim=3, gdim=3, jets=J3, levels=[{"grad", "div", "curl", "nabla_grad", "dx"}, FIN], mikinds=("name", "fixed"), **kw),
     ]
     # geometric quantities under the derivative operators (non-immersed affine cells): x with grad x = I,
